@@ -276,49 +276,99 @@ theorem code_chars (k : Str) (h : IsCode k) : ∀ x ∈ k, x = 27 ∨ x = 91 ∨
   · simp only [genCodes, List.mem_cons, List.mem_nil_iff, or_false] at hc
     rcases hc with rfl | rfl | rfl | rfl | rfl | rfl | rfl | rfl <;> decide
 
-theorem replaceChar_code (c : Nat) (r k : Str) (hk : IsCode k) (hc : c < 27) : replaceChar c r k = k := by
-  have hch := code_chars k hk
-  unfold replaceChar
-  have : ∀ (l : Str), (∀ x ∈ l, x ≠ c) → l.flatMap (fun x => if x = c then r else [x]) = l := by
-    intro l
-    induction l with
-    | nil => intro _; rfl
-    | cons a as ih =>
-      intro h
-      simp only [List.flatMap_cons, h a List.mem_cons_self, ite_false]
-      rw [ih (fun x hx => h x (List.mem_cons_of_mem _ hx))]
-      rfl
-  apply this
-  intro x hx
-  rcases hch x hx with h | h | h | h | h <;> omega
+theorem flatMap_id_of (f : Nat → Str) : ∀ (l : Str), (∀ x ∈ l, f x = [x]) → l.flatMap f = l
+  | [], _ => rfl
+  | a :: as, h => by
+    simp only [List.flatMap_cons, h a List.mem_cons_self]
+    rw [flatMap_id_of f as (fun x hx => h x (List.mem_cons_of_mem _ hx))]
+    rfl
 
-theorem Col.replace (c : Nat) (r : Str) (hc : c < 27) (hr27 : 27 ∉ r) (r0 : Nat) (rt : Str) (hr : r = r0 :: rt) (hr91 : r0 ≠ 91)
-    {C T : Str} (h : Col C T) : Col (replaceChar c r C) (replaceChar c r T) := by
+/-- a character-wise rewriting (`replace`, the escaping of verbose mode's white space) that leaves the characters of SGR sequences
+alone, never produces a line break or `ESC`, and never makes a `[` appear at the front of what it writes -/
+structure Rewr (f : Nat → Str) : Prop where
+  code : ∀ x, x = 27 ∨ x = 91 ∨ x = 59 ∨ x = 109 ∨ (48 ≤ x ∧ x ≤ 57) → f x = [x]
+  ne : ∀ x, f x ≠ []
+  clean : ∀ x, x ≠ 10 → x ≠ 13 → x ≠ 27 → ∀ y ∈ f x, y ≠ 10 ∧ y ≠ 13 ∧ y ≠ 27
+  head : ∀ x, x ≠ 91 → (f x).head? ≠ some 91
+  fix10 : f 10 = [10]
+  fix13 : f 13 = [13]
+
+theorem Col.rewr (f : Nat → Str) (hf : Rewr f) {C T : Str} (h : Col C T) : Col (C.flatMap f) (T.flatMap f) := by
   induction h with
   | nil => exact Col.nil
   | @chr x C T _ hx ih =>
-    have e1 : replaceChar c r (x :: C) = (if x = c then r else [x]) ++ replaceChar c r C := by simp [replaceChar]
-    have e2 : replaceChar c r (x :: T) = (if x = c then r else [x]) ++ replaceChar c r T := by simp [replaceChar]
-    rw [e1, e2]
-    by_cases hxc : x = c
-    · simp only [hxc, ite_true]
-      exact Col.prepend_no27 r hr27 ih
-    · simp only [hxc, ite_false, List.singleton_append]
-      refine Col.chr x ih ?_
-      intro h27
-      have := hx h27
+    simp only [List.flatMap_cons]
+    by_cases h27 : x = 27
+    · subst h27
+      rw [hf.code 27 (Or.inl rfl)]
+      refine Col.chr 27 ih ?_
+      intro _
+      have := hx rfl
       cases C with
-      | nil => simp [replaceChar]
+      | nil => simp
       | cons y ys =>
         have hy : y ≠ 91 := fun hc' => this (by simp [hc'])
-        have : replaceChar c r (y :: ys) = (if y = c then r else [y]) ++ replaceChar c r ys := by simp [replaceChar]
-        rw [this]
-        by_cases hyc : y = c
-        · simp only [hyc, ite_true, hr, List.cons_append, List.head?_cons, ne_eq, Option.some.injEq]; exact hr91
-        · simp only [hyc, ite_false, List.singleton_append, List.head?_cons, ne_eq, Option.some.injEq]; exact hy
-  | @code k C T hk _ ih =>
-    rw [replaceChar_append, replaceChar_code c r k hk hc]
-    exact Col.code k hk ih
+        simp only [List.flatMap_cons]
+        have h1 := hf.head y hy
+        have h2 := hf.ne y
+        cases hfy : f y with
+        | nil => exact absurd hfy h2
+        | cons a as => rw [hfy] at h1; simpa using h1
+    · -- `f x` contains no `ESC`: prepend it
+      have hno : 27 ∉ f x := by
+        by_cases h10 : x = 10
+        · subst h10; rw [hf.fix10]; decide
+        · by_cases h13 : x = 13
+          · subst h13; rw [hf.fix13]; decide
+          · intro hm; exact (hf.clean x h10 h13 h27 27 hm).2.2 rfl
+      exact Col.prepend_no27 (f x) hno ih
+  | @paint code text C T hc hne htx _ ih =>
+    simp only [List.flatMap_append]
+    have hcodes : ∀ k, IsCode k → k.flatMap f = k := fun k hk => flatMap_id_of f k (fun x hx => hf.code x (code_chars k hk x hx))
+    have e : (Grexv.paint true code text).flatMap f = Grexv.paint true code (text.flatMap f) := by
+      rw [paint_eq, paint_eq, List.flatMap_append, List.flatMap_append (xs := text),
+        hcodes _ (Or.inr ⟨code, hc, rfl⟩), hcodes [27, 91, 48, 109] (Or.inl rfl)]
+    rw [e]
+    refine Col.paint code (text.flatMap f) hc ?_ ?_ ih
+    · cases text with
+      | nil => exact absurd rfl hne
+      | cons a as =>
+        simp only [List.flatMap_cons]
+        intro hnil
+        have := hf.ne a
+        cases hfa : f a with
+        | nil => exact this hfa
+        | cons b bs => rw [hfa] at hnil; simp at hnil
+    · intro y hy
+      obtain ⟨x, hx, hyx⟩ := List.mem_flatMap.mp hy
+      exact hf.clean x (htx x hx).1 (htx x hx).2.1 (htx x hx).2.2 y hyx
+
+theorem rewr_replace (c : Nat) (r : Str) (hc : c ≠ 10 ∧ c ≠ 13 ∧ c ≠ 27 ∧ c ≠ 91 ∧ c ≠ 59 ∧ c ≠ 109 ∧ ¬ (48 ≤ c ∧ c ≤ 57))
+    (hr : okText r = true) (hr91 : r.head? ≠ some 91) : Rewr (fun x => if x = c then r else [x]) := by
+  obtain ⟨hne, hcl⟩ := okText_sound r hr
+  refine ⟨?_, ?_, ?_, ?_, ?_, ?_⟩
+  · intro x hx
+    have : x ≠ c := by rcases hx with h | h | h | h | h <;> omega
+    simp [this]
+  · intro x; split
+    · exact hne
+    · simp
+  · intro x h10 h13 h27 y hy
+    split at hy
+    · exact hcl y hy
+    · simp only [List.mem_singleton] at hy; subst hy
+      exact ⟨h10, h13, h27⟩
+  · intro x hx; split
+    · exact hr91
+    · simpa using hx
+  · simp [hc.1.symm]
+  · simp [hc.2.1.symm]
+
+theorem Col.replace (c : Nat) (r : Str) (hc : c ≠ 10 ∧ c ≠ 13 ∧ c ≠ 27 ∧ c ≠ 91 ∧ c ≠ 59 ∧ c ≠ 109 ∧ ¬ (48 ≤ c ∧ c ≤ 57))
+    (hr : okText r = true) (hr91 : r.head? ≠ some 91)
+    {C T : Str} (h : Col C T) : Col (replaceChar c r C) (replaceChar c r T) := by
+  unfold replaceChar
+  exact Col.rewr _ (rewr_replace c r hc hr hr91) h
 
 /-- **C15, whole pattern (not verbose)** for every expression and every combination of the other settings, removing
 the SGR sequences from the highlighted text with the stripping regex of the code gives exactly the text without
@@ -350,8 +400,8 @@ theorem strip_colored (cfg : Config) (hv : cfg.verb = false) (e : Expr) (fuel : 
       · exact CP.nil
       · exact CP.append CP.nil (CP.painted _ _ Comp.mem_codes.2.1 (by decide))
     have hr0 := (CP.append (CP.append (CP.append hflag hcaret) (cp_bodyText cfg e)) hdollar).col
-    have hr1 := Col.replace 12 Gen.strFormFeed (by decide) (by decide) 92 [102] rfl (by decide)
-      (Col.replace 11 Gen.strVerticalTab (by decide) (by decide) 92 [118] rfl (by decide) hr0)
+    have hr1 := Col.replace 12 Gen.strFormFeed (by decide) (by decide) (by decide)
+      (Col.replace 11 Gen.strVerticalTab (by decide) (by decide) (by decide) hr0)
     have hvT : (withColor cfg true).verb = false := hv
     have hvF : (withColor cfg false).verb = false := hv
     unfold fmtRegExp
